@@ -65,7 +65,7 @@ for (n, m, tier) in ((12, 3, 'deep'), (6, 2, 'deep'), (0, 0, 'quick'), (1 << 63,
     inst(P, 'c07_sparse_to_doc_n%d_m%d' % (n, m), SC('c07::sparse_to_doc(%d, %d, %d)', n, m), tier=tier, unwind=U, stubs=SPARSE, cap=1200, cap_thorough=3600, mem=30,
          desc='library -> document: SparseVector (universe %d, %d symbolic positions) written by the library decodes by the Elias-Fano rules of the document; exactly ceil(n/2^w) buckets' % (n, m),
          shape={'universe': n, 'ones': m}).unwindset = LUW(n, m)
-for (n, m, w, tier) in ((3, 1, 1, 'quick'), (12, 3, 1, 'quick'), (12, 3, 2, 'quick'), (12, 3, 3, 'thorough'), (12, 3, 5, 'thorough'), (6, 2, 1, 'thorough'), (1 << 40, 2, 37, 'deep')):
+for (n, m, w, tier) in ((3, 1, 1, 'quick'), ((1 << 64) - 1, 1, 63, 'quick'), (12, 3, 1, 'quick'), (12, 3, 2, 'quick'), (12, 3, 3, 'thorough'), (12, 3, 5, 'thorough'), (6, 2, 1, 'thorough'), (1 << 40, 2, 37, 'deep')):
     for q, qn in enumerate(('select', 'rank_get', 'select_zero', 'pred_succ')):
         inst([P, 'C19'] if n == 3 else P, 'c07_doc_to_sparse_n%d_m%d_w%d_%s' % (n, m, w, qn), 'c07::doc_to_sparse(%d, %d, %d, %d)' % (n, m, w, q), tier=tier if (qn in ('select',) or (n == 3 and qn == 'rank_get')) else 'deep', unwind=U,
              stubs=['bvspec'], cap=1200, cap_thorough=3600, mem=14 if qn == 'select' else 30,
